@@ -1,13 +1,17 @@
 package main
 
 import (
+	"bytes"
 	"encoding/json"
 	"fmt"
+	"io"
 	"sort"
 	"strconv"
 	"strings"
 
 	mxj "github.com/clbanning/mxj/v2"
+	"github.com/clbanning/mxj/v2/j2x"
+	wrap "github.com/clbanning/mxj/v2/x2j-wrapper"
 	"verif/harness/tagged"
 )
 
@@ -235,7 +239,10 @@ func probeValue(kp string) map[string]interface{} {
 }
 
 var probes = map[string]func() string{
-	"decode": func() string { m, err := mxj.NewMapXml([]byte(probeDoc)); return digest(map[string]interface{}(m), err) },
+	"decode": func() string {
+		m, err := mxj.NewMapXml([]byte(probeDoc))
+		return digest(map[string]interface{}(m), err)
+	},
 	"decodeCast": func() string {
 		m, err := mxj.NewMapXml([]byte(probeDoc), true)
 		return digest(map[string]interface{}(m), err)
@@ -513,6 +520,7 @@ type mxjLine struct {
 }
 
 const mxjProbeDoc = `<D-a x-Y="1" B=" &amp;">` + "\n" + `<e-f> 7 </e-f><e-f>&lt;v</e-f><g/><h k="q">true</h>` + "\n" + `</D-a>`
+const mxjXmppDoc = `<stream:stream to="x" A-b="&amp;"><a>1</a><B-c k="q"> 2 </B-c></stream:stream>`
 const mxjProbeSeqDoc = `<p:A z-z="1&amp;"><!--c--><B-c> v </B-c><d>&lt;7</d></p:A>`
 
 func mxjProbeMap() mxj.Map {
@@ -680,6 +688,101 @@ func mxjOp(st mxjStep) (name, got, want string) {
 			got, err = mxjLeafMap().Attributes("doc")
 		}
 		return name, fmt.Sprint(strings.Join(got, ","), err), fmt.Sprint(strings.Join(exp, ","), "<nil>")
+	case "legacy":
+		var exp struct {
+			X string     `json:"x"`
+			M *tagged.TV `json:"m"`
+		}
+		if err := json.Unmarshal(st.R, &exp); err != nil {
+			panic(err)
+		}
+		if st.Arg == "j2xnum" {
+			const jn = `{"n":1.50,"s":"x"}`
+			cv := mxj.VerifOptions()["checkValid"].(bool)
+			mxj.XmlCheckIsValid(false)
+			b1, e1 := j2x.JsonToXml([]byte(jn))
+			var w2, w4 bytes.Buffer
+			e2 := j2x.JsonToXmlWriter([]byte(jn), &w2)
+			_, b3, e3 := j2x.JsonReaderToXml(strings.NewReader(jn))
+			e4 := j2x.JsonReaderToXmlWriter(hideByteReader{strings.NewReader(jn)}, &w4)
+			mxj.XmlCheckIsValid(cv)
+			return "j2x.JsonToXml / JsonToXmlWriter / JsonReaderToXml / JsonReaderToXmlWriter on " + jn,
+				fmt.Sprint(string(b1), e1, " | ", w2.String(), e2, " | ", string(b3), e3, " | ", w4.String(), e4),
+				fmt.Sprint(exp.X, "<nil> | ", exp.X, "<nil> | ", exp.X, "<nil> | ", exp.X, "<nil>")
+		}
+		if st.Arg == "j2x" {
+			jb, _ := json.Marshal(map[string]interface{}(mxjProbeMap()))
+			cv := mxj.VerifOptions()["checkValid"].(bool)
+			mxj.XmlCheckIsValid(false)
+			b, err := j2x.JsonToXml(jb)
+			mxj.XmlCheckIsValid(cv)
+			if exp.X == "!ERR" {
+				return "j2x.JsonToXml(probe) error class", cls(err), "err"
+			}
+			return "j2x.JsonToXml(probe)", string(b) + fmt.Sprint(err), exp.X + "<nil>"
+		}
+		wrap.CastNanInf(true) // the wrapper's own flag: it must not reach the core's register
+		defer wrap.CastNanInf(false)
+		var m map[string]interface{}
+		var err error
+		if st.Arg == "x2jcast" {
+			name = "x2j-wrapper DocToMap(probe, true)"
+			m, err = wrap.DocToMap(mxjProbeDoc, true)
+		} else {
+			name = "x2j-wrapper DocToMap(probe)"
+			m, err = wrap.DocToMap(mxjProbeDoc)
+		}
+		return name, tagged.CanonGo(m) + fmt.Sprint(err), exp.M.Norm() + "<nil>"
+	case "xmpp":
+		var exp struct {
+			Ms  []*tagged.TV `json:"ms"`
+			End string       `json:"end"`
+		}
+		if err := json.Unmarshal(st.R, &exp); err != nil {
+			panic(err)
+		}
+		w := make([]string, len(exp.Ms))
+		for i, t := range exp.Ms {
+			w[i] = t.Norm()
+		}
+		var g []string
+		end := "none"
+		one := func(m map[string]interface{}, err error) bool {
+			if err == io.EOF && len(m) == 0 {
+				end = "EOF"
+				return false
+			} else if err != nil && err != io.EOF {
+				end = "err"
+				return false
+			}
+			g = append(g, tagged.CanonGo(m))
+			return true
+		}
+		switch st.Arg {
+		case "map":
+			m, err := mxj.NewMapXml([]byte(mxjXmppDoc))
+			one(m, err)
+		case "seq":
+			m, err := mxj.NewMapXmlSeq([]byte(mxjXmppDoc))
+			one(m, err)
+		case "reader":
+			r := strings.NewReader(mxjXmppDoc)
+			for i := 0; i < 8; i++ {
+				m, err := mxj.NewMapXmlReader(r)
+				if !one(m, err) {
+					break
+				}
+			}
+		case "seqreader":
+			r := hideByteReader{strings.NewReader(mxjXmppDoc)}
+			for i := 0; i < 8; i++ {
+				m, err := mxj.NewMapXmlSeqReader(r)
+				if !one(m, err) {
+					break
+				}
+			}
+		}
+		return "XMPP stream (" + st.Arg + ")", strings.Join(g, " | ") + " end=" + end, strings.Join(w, " | ") + " end=" + exp.End
 	case "seqrt":
 		var x string
 		if err := json.Unmarshal(st.R, &x); err != nil {
